@@ -18,7 +18,7 @@ pub fn def() -> CheckDef {
         info: CheckInfo {
             id: "C17",
             level: "exploration",
-            rule: "one seeded run = one history (as C02: edits, backups with any options, backups killed before operation k, deletes, gc) executed three times into fresh simulated stores: flavour A sorted storage listings and no delays; flavour B shuffled listings plus seeded delays that reorder the completion of sibling tasks; flavour C reversed listings and another delay seed; flavour D sorted, no delays, but every simulated process exits the moment its call returns, so tasks it detached (the GC-lock cleanup spawned from Drop) never run. Oracle: the three stores have the same path set and byte-identical files (BANDHEAD/BANDTAIL compared as JSON without start_time/end_time) and the three operation logs have the same sequence of mutating operations (verb, path, content hash); for flavour D the first step at which lock presence or outcome diverges from flavour A is reported. Non-trivial: the history made at least two archive-changing steps; distinct = distinct final store hash.",
+            rule: "one seeded run = one history (as C02: edits, backups with any options, backups killed before operation k, deletes, gc) executed three times into fresh simulated stores: flavour A sorted storage listings and no delays; flavour B shuffled listings plus seeded delays that reorder the completion of sibling tasks; flavour C reversed listings and another delay seed; flavour D sorted, no delays, but every simulated process exits the moment its call returns, so tasks it detached (the GC-lock cleanup spawned from Drop) never run; flavour E as A with the simulated wall clock 70 years ahead (clock skew between the two replays). Oracle: the stores have the same path set and byte-identical files (BANDHEAD/BANDTAIL compared as JSON without start_time/end_time) and the three operation logs have the same sequence of mutating operations (verb, path, content hash); for flavour D the first step at which lock presence or outcome diverges from flavour A is reported. Non-trivial: the history made at least two archive-changing steps; distinct = distinct final store hash.",
             assumptions: &[
                 "OS-level races inside tokio's multi-thread scheduler are not controlled by this simulator; the write path has no spawned tasks today, and flavour B's delay seam would reorder them if it gained any",
                 "each flavour materialises the same explicit edits in its own scratch directory",
@@ -73,22 +73,27 @@ fn execute(sc: &Scenario, acc: &mut Acc) -> Result<Vec<Violation>, String> {
     *acc.backends.entry("mem".into()).or_default() += 1;
     // (listing order, delays, let spawned cleanup tasks run before the simulated process exits)
     let flavours = [
-        (ListOrder::Sorted, None, true),
-        (ListOrder::Shuffled(sc.seed ^ 0xB), Some((sc.seed ^ 0xB1, 300u32)), true),
-        (ListOrder::Reversed, Some((sc.seed ^ 0xC1, 150u32)), true),
+        (ListOrder::Sorted, None, true, crate::sim::SIM_EPOCH),
+        (ListOrder::Shuffled(sc.seed ^ 0xB), Some((sc.seed ^ 0xB1, 300u32)), true, crate::sim::SIM_EPOCH),
+        (ListOrder::Reversed, Some((sc.seed ^ 0xC1, 150u32)), true, crate::sim::SIM_EPOCH),
         // the process exits as soon as the call returns: detached tasks never get to run
-        (ListOrder::Sorted, None, false),
+        (ListOrder::Sorted, None, false, crate::sim::SIM_EPOCH),
+        // the replay happens at another time: the simulated wall clock (all Conserve stores
+        // of it are the start and end times, which the comparison leaves out) is decades
+        // ahead, later than any timestamp the real file system gives the source files
+        (ListOrder::Sorted, None, true, 4_000_000_000),
     ];
     let mut results: Vec<Flavoured> = Vec::new();
     let mut trails: Vec<Vec<(bool, String)>> = Vec::new();
     let mut changing_steps = 0;
-    for (order, delay, drain) in flavours.iter() {
+    for (order, delay, drain, clock_base) in flavours.iter() {
         let mut env = sc.env.clone();
         env.list_order = *order;
         env.delay = *delay;
         env.drain = *drain;
         let mut trail: Vec<(bool, String)> = Vec::new();
         let mut w = World::new(env, sc.root_meta);
+        w.set_clock_base(*clock_base);
         let mut a2 = Acc::default();
         changing_steps = 0;
         for step in &sc.steps {
@@ -164,12 +169,13 @@ fn execute(sc: &Scenario, acc: &mut Acc) -> Result<Vec<Violation>, String> {
     if changing_steps >= 2 {
         acc.nontrivial.insert(rng::mix(&results[0].0.iter().map(|(p, b)| rng::mix(&[rng::hash_str(p), rng::hash_bytes(b)])).collect::<Vec<_>>()));
     }
-    for (i, name) in [(1usize, "shuffled+delays"), (2usize, "reversed+delays")] {
+    for (i, name) in [(1usize, "shuffled+delays"), (2usize, "reversed+delays"), (4usize, "another wall-clock time")] {
         let (a, b) = (&results[0], &results[i]);
         if a.0 != b.0 || a.2 != b.2 {
             let pa: BTreeSet<&String> = a.0.iter().map(|(p, _)| p).collect();
             let pb: BTreeSet<&String> = b.0.iter().map(|(p, _)| p).collect();
             let disc = if pa != pb || a.2 != b.2 { "path_set" } else { "file_bytes" };
+            let disc = if i == 4 { format!("clock:{disc}") } else { disc.to_string() };
             let first = a.0.iter().zip(b.0.iter()).find(|(x, y)| x != y).map(|(x, y)| format!("{} vs {}", x.0, y.0)).unwrap_or_default();
             out.push(Violation::new(prop, "stores_identical_across_flavours", disc, format!("sorted/no-delay vs {name}: first difference at {first}")));
         }
@@ -178,7 +184,7 @@ fn execute(sc: &Scenario, acc: &mut Acc) -> Result<Vec<Violation>, String> {
             out.push(Violation::new(
                 prop,
                 "mutating_operation_sequence_identical",
-                "sequence",
+                if i == 4 { "clock:sequence" } else { "sequence" },
                 format!("sorted/no-delay vs {name}: mutating operation #{first} differs: {:?} vs {:?}", a.1.get(first), b.1.get(first)),
             ));
         }
